@@ -915,13 +915,34 @@ class Interp:
             lo = self.ev(st, n.slice.lower, tree) if n.slice.lower else NONE
             hi = self.ev(st, n.slice.upper, tree) if n.slice.upper else NONE
             stp = self.ev(st, n.slice.step, tree) if n.slice.step else NONE
+            if base[0] == "tuple" and all(is_const(x) and (x[1] is None or isinstance(x[1], int)) for x in (lo, hi, stp)):
+                return ("tuple", tuple(base[1][slice(lo[1], hi[1], stp[1])]))
             return ("slice", base, lo, hi, stp)
         key = self.ev(st, n.slice, tree)
         return self.get_item(st, base, key)
 
+    def get_slice(self, st, base, lo, hi):
+        if base[0] == "cond":
+            return mk_cond(base[1], self.get_slice(st, base[2], lo, hi), self.get_slice(st, base[3], lo, hi))
+        if base[0] == "bool" and base[1] == "or" and len(base[2]) == 2:
+            return mk_cond(base[2][0], self.get_slice(st, base[2][0], lo, hi), self.get_slice(st, base[2][1], lo, hi))
+        o = self.obj(base)
+        if isinstance(o, HList) and all(sg[0] == "e" for sg in o.segs) and not getattr(o, "dirty", False) and is_const(lo) and is_const(hi):
+            return self.new_list(list(o.segs[slice(lo[1], hi[1])]), None, None)
+        if base[0] == "tuple" and is_const(lo) and is_const(hi):
+            return ("tuple", tuple(base[1][slice(lo[1], hi[1])]))
+        return ("slice", base, lo, hi, NONE)
+
     def get_item(self, st, base, key):
         if base[0] == "cond":
             return mk_cond(base[1], self.get_item(st, base[2], key), self.get_item(st, base[3], key))
+        if base[0] == "bool" and base[1] == "or" and len(base[2]) == 2:
+            # ``(xs or default)[k]``
+            return mk_cond(base[2][0], self.get_item(st, base[2][0], key), self.get_item(st, base[2][1], key))
+        o_ = self.obj(base)
+        if isinstance(o_, HList) and is_const(key) and isinstance(key[1], int) and all(sg[0] == "e" for sg in o_.segs) \
+                and not getattr(o_, "dirty", False) and -len(o_.segs) <= key[1] < len(o_.segs):
+            return o_.segs[key[1]][1]
         o = self.obj(base)
         if isinstance(o, HDict) and is_const(key):
             # only literal entries, not later setitems (those are effects); good enough for local dict reads
@@ -1009,6 +1030,26 @@ class Interp:
     def _comp_rec(self, st, n, gens, i, tree, kind):
         g = gens[i]
         it = self.ev(st, g.iter, tree)
+        # a generator over a small constant table is unrolled: one group of elements per table entry, in order
+        elems = self._unroll_elems(it) if kind != "dict" else None
+        if elems is not None and 0 < len(elems) <= 16 and not getattr(self.obj(it), "dirty", False):
+            segs = []
+            ok = True
+            for el in elems:
+                f = st.fork()
+                self.bind_target(f, g.target, el)
+                conds = [self.ev(f, c, tree) for c in g.ifs]
+                if any(not is_const(c) for c in conds):
+                    ok = False
+                    break
+                if not all(bool(c[1]) for c in conds):
+                    continue
+                if i + 1 < len(gens):
+                    segs.append(("s", self._comp_rec(f, n, gens, i + 1, tree, kind)))
+                else:
+                    segs.append(("e", self.ev(f, n.elt, tree)))
+            if ok:
+                return self.new_list(segs, n, tree)
         lid = next(self._loop)
         f = st.fork()
         self.bind_target(f, g.target, ("elem", lid), lid, it)
@@ -1047,6 +1088,15 @@ class Interp:
                 # ``for pair in enumerate(xs)``: the pair of position and element (as in ``for n, x in enumerate(xs)``)
                 value = ("tuple", (("idx", lid), ("elem", lid)))
             st.env[tgt.id] = value
+        elif isinstance(tgt, (ast.Tuple, ast.List)) and any(isinstance(e, ast.Starred) for e in tgt.elts):
+            # ``first, *rest = xs`` / ``*init, last = xs``
+            k = next(i for i, e in enumerate(tgt.elts) if isinstance(e, ast.Starred))
+            after = len(tgt.elts) - k - 1
+            for i, e in enumerate(tgt.elts[:k]):
+                self.bind_target(st, e, self.get_item(st, value, const(i)))
+            self.bind_target(st, tgt.elts[k].value, self.get_slice(st, value, const(k), const(-after) if after else NONE))
+            for j, e in enumerate(tgt.elts[k + 1:]):
+                self.bind_target(st, e, self.get_item(st, value, const(j - after)))
         elif isinstance(tgt, (ast.Tuple, ast.List)):
             # ``for n, x in enumerate(xs)``
             if lid is not None and iter_term is not None and iter_term[0] == "call" and iter_term[1] == "enumerate" \
